@@ -431,6 +431,15 @@ class FilterException(Exception):
     pass
 
 
+class _FilteredExample:
+    """
+    Marker that a prefetch worker returns for an example that was filtered.
+    The class itself is the marker: classes are pickled by reference, hence
+    the identity survives the transfer from a worker process.
+    """
+    pass
+
+
 class Dataset:
 
     def copy(self, freeze: bool = False) -> 'Dataset':
@@ -2225,7 +2234,7 @@ class PrefetchDataset(Dataset):
             else:
                 catch_filter_exception = self.catch_filter_exception
 
-            unique_object = object()
+            unique_object = _FilteredExample
 
             if with_key:
                 def catcher(key):
